@@ -20,7 +20,10 @@ ASSUMPTIONS = ['decided part only: what a torn write, lost or misdirected sector
 
 
 def space(name, body):
-    return X.text_space(len(body), thin=3 if len(body) > 9000 else 1)
+    return X.text_space(len(body), thin=4 if len(body) > 9000 else 2 if len(body) > 5000 else 1)
+
+
+weight = X.text_weight
 
 
 def commands(name):
@@ -30,7 +33,7 @@ def commands(name):
 
 
 def applies(cmd, fi, f):
-    return cmd == 'abidiff-dmg-intact' or (cmd == 'abilint' and fi % 2 == 0) or (cmd in ('abilint-stdin', 'abilint-stdin-tu') and fi % 4 == 1)
+    return cmd == 'abidiff-dmg-intact' or (cmd == 'abilint' and fi % 3 == 0) or (cmd in ('abilint-stdin', 'abilint-stdin-tu') and fi % 6 == 1)
 
 
 def command(ctx, it, cmd, dmg):
